@@ -573,7 +573,7 @@ theorem step_Wf2 {s s' : Sys} {l : Label} (hw : Wf s) (h : Wf2 s) (hs : step s l
           split at hs
           · simp at hs
           · simp only [Option.some.injEq] at hs; subst hs
-            refine key { status := .fresh, base := some g, member := some g } _ rfl rfl rfl rfl rfl rfl rfl (fun g' => ?_)
+            refine key { status := .fresh, base := some g, member := some g, depth := (s.tasks t).depth + 1 } _ rfl rfl rfl rfl rfl rfl rfl (fun g' => ?_)
             simp only [setGroup_groups, setTask_groups]; split
             · rename_i e; subst e; exact ⟨rfl, rfl⟩
             · exact ⟨rfl, rfl⟩
